@@ -133,12 +133,18 @@ def run(cfg, tier, seed):
             cov["leanchecker_s"] = round(dtc, 1)
             if not okc:
                 proof_broken = "leanchecker rejected %s: %s" % (cfg.prop_module, outc[-500:])
+            for m in extra_mods:       # the regenerated obligations are re-checked by the independent checker too
+                if proof_broken: break
+                okc, outc, dtc = lib.leanchecker(m)
+                cov["leanchecker_s"] = round(cov["leanchecker_s"] + dtc, 1)
+                if not okc:
+                    proof_broken = "leanchecker rejected %s: %s" % (m, outc[-500:])
     used_axioms = sorted({a for v in axioms.values() for a in v})
     cov.update({
         "obligations": obligations, "discharged": discharged,
         "theorems": names + extra_names, "examples": n_examples,
         "checker_cmd": "cd /verif/lean && lake build %s && lake env lean <generated #print axioms audit>%s" % (
-            cfg.prop_module, " && lake env leanchecker " + cfg.prop_module if tier == "thorough" else ""),
+            cfg.prop_module, " && lake env leanchecker " + " ".join([cfg.prop_module] + extra_mods) if tier == "thorough" else ""),
         "trusted_base": ["Lean 4.33.0 kernel", "axioms used by the theorems: %s" % (used_axioms or "none")]
                         + list(cfg.trusted_base) + kernel.trusted(cfg.prop),
         "axioms_by_theorem": axioms,
